@@ -30,7 +30,7 @@ import c06 as C06
 
 PROP = "C05"
 BIN = "vh_c05"
-SYM = {"U2": "\u00a7", "U4": "\U0001d11e"}
+SYM = {"U2": "\u00a7", "U4": "\U0001d11e", "KIF": "if", "KELSE": "else", "KPASS": "pass", "KDEF": "def"}
 LAYOUT = ("NEWLINE", "INDENT", "DEDENT")
 # lexical errors that the lexer itself must report (for the others -- unbalanced closing bracket,
 # number immediately followed by a letter -- delivering tokens and letting the parser reject is fine)
@@ -229,7 +229,9 @@ def run(tier):
     ml, mw = (5, 5) if tier == "thorough" else (4, 4)
     # shapes: sequences of k <= ml lines, each (mw + 1) widths; every line but the last ends in LF, the last may not
     shapes = 1 + sum((mw + 1) ** k + (mw + 1) ** k for k in range(1, ml + 1)) - 0
-    space = sum(28 ** j for j in range(n + 1)) + sum(6 ** j for j in range(ni + 1)) + shapes
+    gl, gw = (5, 4) if tier == "thorough" else (4, 4)
+    gshapes = sum((2 * (gw + 1)) ** k for k in range(gl + 1))
+    space = sum(28 ** j for j in range(n + 1)) + sum(6 ** j for j in range(ni + 1)) + shapes + gshapes
     if len(cases) != space or r.distinct != space + 1 or len(muts) != 1:
         raise C.ToolError("Gen_Lex: %d cases / %d states for a space of %d" % (len(cases), r.distinct, space))
     C.log("[C05] TLC lexed %d strings in %.0fs" % (len(cases), r.wall))
